@@ -128,6 +128,45 @@ class Block:
         return '<bb %s>' % self.name
 
 
+def _prune_constant_branches(blocks):
+    """a conditional branch on a literal constant (what inlining a helper with a constant argument leaves behind, e.g. a
+    range loop called with an empty range) only continues to the successor the constant selects; blocks that become
+    unreachable are dropped and phi entries for vanished edges removed.  Nothing else is rewritten."""
+    CONST = {'#0': False, '#1': True, 'false': False, 'true': True}
+    cut = set()
+    for bd in blocks:
+        t = bd['insts'][-1] if bd['insts'] else None
+        if t is not None and t['op'] == 'br' and len(t.get('succ', [])) == 2 and t.get('o') and t['o'][0] in CONST and t['succ'][0] != t['succ'][1]:
+            taken = t['succ'][0] if CONST[t['o'][0]] else t['succ'][1]
+            dead = t['succ'][1] if CONST[t['o'][0]] else t['succ'][0]
+            cut.add((bd['name'], dead))
+            t['succ'] = [taken]
+            t['o'] = []
+    if not cut:
+        return blocks
+    byname = {bd['name']: bd for bd in blocks}
+    seen = set()
+    work = [blocks[0]['name']]
+    while work:
+        n = work.pop()
+        if n in seen:
+            continue
+        seen.add(n)
+        t = byname[n]['insts'][-1] if byname[n]['insts'] else None
+        if t is not None and t['op'] in ('br', 'switch'):
+            work.extend(t.get('succ', []))
+    out = [bd for bd in blocks if bd['name'] in seen]
+    for bd in out:
+        for i in bd['insts']:
+            if i['op'] != 'phi':
+                continue
+            keep = [k for k, b in enumerate(i.get('bb', [])) if b in seen and (b, bd['name']) not in cut]
+            if len(keep) != len(i.get('bb', [])):
+                i['o'] = [i['o'][k] for k in keep]
+                i['bb'] = [i['bb'][k] for k in keep]
+    return out
+
+
 class Function:
     def __init__(self, d, module):
         self.module = module
@@ -144,7 +183,7 @@ class Function:
         self.blocks = []
         self.bb = {}
         self.inst = {}
-        for bi, bd in enumerate(d.get('blocks', [])):
+        for bi, bd in enumerate(_prune_constant_branches(d.get('blocks', []))):
             b = Block(bd['name'], bi, self)
             self.blocks.append(b)
             self.bb[b.name] = b
